@@ -36,6 +36,10 @@ class LItem:
         LOG.append(("call", self._label, "big"))
         return self.__dict__["_a"] > k
 
+    def scaled(self, k=1, *, plus=0):
+        LOG.append(("call", self._label, "scaled"))
+        return self.__dict__["_a"] * k + plus
+
     def __repr__(self):
         return f"L#{self._label}"
 
